@@ -8,6 +8,7 @@ HEADER = """#![allow(warnings)]
 use bumpalo::Bump;
 use bumpalo::collections::{Vec as BVec, String as BString};
 use bumpalo::boxed::Box as BBox;
+use bumpalo::collections::CollectIn;
 fn use_ref<T: ?Sized>(_: &T) {}
 pub fn probe() {
     let mut bump = Bump::new();
@@ -33,6 +34,26 @@ MK = {
     "Splice": "let mut h{n} = BVec::<u64>::new_in(&bump); let t{n} = h{n}.splice(.., core::iter::empty::<u64>());",
     "DrainFilter": "let mut h{n} = BVec::<u64>::new_in(&bump); let t{n} = h{n}.drain_filter(|x: &mut u64| *x == 0);",
     "StrDrain": "let mut h{n} = BString::new_in(&bump); let t{n} = h{n}.drain(..);",
+    # conversions between arena-backed values
+    "BoxSliceFromArray": "let t{n} = BBox::<[u64]>::from(BBox::new_in([1u64; 2], &bump));",
+    "BoxArrayTryFrom": "let t{n} = BBox::<[u64; 1]>::try_from({{ let mut v = BVec::<u64>::new_in(&bump); v.push(1); v.into_boxed_slice() }}).ok().unwrap();",
+    "BoxTryFromErr": "let t{n} = BBox::<[u64; 2]>::try_from({{ let mut v = BVec::<u64>::new_in(&bump); v.push(1); v.into_boxed_slice() }}).unwrap_err();",
+    "PinBox": "let t{n} = BBox::pin_in(1u64, &bump);",
+    "PinFromBox": "let t{n} = core::pin::Pin::from(BBox::new_in(1u64, &bump));",
+    "BumpRef": "let t{n} = BVec::<u64>::new_in(&bump).bump();",
+    "StringIntoBytes": "let mut t{n} = BString::new_in(&bump).into_bytes();",
+    "StringFromUtf8": "let mut t{n} = BString::from_utf8(BVec::<u8>::new_in(&bump)).unwrap();",
+    "FromUtf8Err": "let t{n} = BString::from_utf8(bumpalo::vec![in &bump; 255u8]).unwrap_err();",
+    "VecMacro": "let mut t{n} = bumpalo::vec![in &bump; 1u64, 2];",
+    "FormatMacro": "let mut t{n} = bumpalo::format!(in &bump, \"x{{}}\", 1);",
+    "CollectIn": "let mut t{n}: BVec<u64> = (0..2u64).collect_in(&bump);",
+    "AllocWith": "let t{n} = bump.alloc_with(|| 1u64);",
+    "TryAllocOk": "let t{n} = bump.try_alloc(1u64).unwrap();",
+    "AllocTryWith": "let t{n} = bump.alloc_try_with(|| Ok::<u64, ()>(1)).unwrap();",
+    "SliceFillIter": "let t{n} = bump.alloc_slice_fill_iter([1u8, 2]);",
+    "ChunkItem": "let t{n} = bump.iter_allocated_chunks().next();",
+    "ApiVec": "let mut t{n} = allocator_api2::vec::Vec::<u64, &Bump>::new_in(&bump);",
+    "ApiBox": "let t{n} = allocator_api2::boxed::Box::new_in(1u64, &bump);",
 }
 DERIVED = {"Drain", "Splice", "DrainFilter", "StrDrain"}
 
@@ -83,12 +104,14 @@ def classify(codes):
         return "moved"
     return "borrow"
 
+API2 = []
+
 def compile_probe(args):
     idx, src, depsdir, rlib, outdir = args
     f = os.path.join(outdir, "p%d.rs" % idx)
     open(f, "w").write(src)
     cmd = ["rustc", "--edition", "2021", "--crate-type", "lib", "--emit", "metadata", "-o", os.path.join(outdir, "p%d.rmeta" % idx),
-           "-L", "dependency=" + depsdir, "--extern", "bumpalo=" + rlib, "--error-format", "short", "--cap-lints", "allow", f]
+           "-L", "dependency=" + depsdir, "--extern", "bumpalo=" + rlib] + API2 + ["--error-format", "short", "--cap-lints", "allow", f]
     rc, out, dt = run(cmd, timeout=120)
     codes = set(re.findall(r"error\[(E\d+)\]", out))
     other = rc != 0 and not codes
@@ -107,7 +130,10 @@ def run_c05(tier, seed):
     if not rlibs:
         return dict(name="borrow", fails=[], tool_error="bumpalo rlib not found in " + depsdir)
     rlib = rlibs[-1]
-    cfgs = ["Borrow_quick", "Borrow_quick1"] if tier == "quick" else ["Borrow_thorough"]
+    a2 = sorted(glob.glob(os.path.join(depsdir, "liballocator_api2-*.rlib")), key=os.path.getmtime)
+    if a2:
+        API2[:] = ["--extern", "allocator_api2=" + a2[-1]]
+    cfgs = ["Borrow_quick", "Borrow_quick1", "Borrow_quick2", "Borrow_quick3"] if tier == "quick" else ["Borrow_thorough"]
     cfg = "+".join(cfgs)
     probes = []
     r = None
